@@ -275,6 +275,11 @@ Section Eval.
   Definition hdr_key (l : line ustring) (i : nat) : ustring := match cell l i with Some t => t | None => [] end.
   Definition dget (m : mx) (nm : Z) (key : ustring) : option value :=
     match lookup nm (dicts m) with Some d => ulookup key d | None => None end.
+  Definition ensure_key (m : mx) (nm : Z) (key : ustring) : mx :=
+    match lookup nm (dicts m) with
+    | None | Some [] => mkMx (vars m) (stacks m) (update nm [(key, VNone)] (dicts m))
+    | Some _ => m
+    end.
   Definition dset (m : mx) (nm : Z) (key : ustring) (v : value) : mx :=
     mkMx (vars m) (stacks m) (update nm (uupdate key v (match lookup nm (dicts m) with Some d => d | None => [] end)) (dicts m)).
   Definition num_of (v : option value) : Z := match v with Some (VI z) | Some (VF z) => z | _ => 0 end.
@@ -337,11 +342,13 @@ Section Eval.
         | None => (s, false)               (* an int compared with text: Python raises; not generated *)
         end
     | AssignQK qs nm key e =>
+        (* reading the current value of a variable that does not exist yet (or is an empty dictionary) creates it as {key: None} (CsvPath.get_variable) *)
+        let m1 := ensure_key m nm key in
         let y := nvalue s l e in
         match Assign.do_assignment qs true (aval_of (match dget m nm key with Some c0 => c0 | None => VNone end)) (aval_of y) with
-        | Some (true, vote) => (with_mx s (dset m nm key y), vote)
-        | Some (false, vote) => (s, vote)
-        | None => (s, false)
+        | Some (true, vote) => (with_mx s (dset m1 nm key y), vote)
+        | Some (false, vote) => (with_mx s m1, vote)
+        | None => (with_mx s m1, false)
         end
     | CountIf v nm c =>
         let key := if beval s l c then py_true else py_false in
